@@ -11,3 +11,19 @@ impl<T> JoinHandle<T> {
         ensures match r { Ok(v) => self.outcome() == Some(v), Err(_) => self.outcome() is None },
     { unimplemented!() }
 }
+
+// ---- mirror of std::thread::Builder (assumed): the thread function is called once, under its own precondition; a handle that is joined
+// yields a value the thread function can return ----
+#[verifier::external_body]
+pub struct Builder { _p: u8 }
+impl Builder {
+    #[verifier::external_body]
+    pub fn new() -> Builder { unimplemented!() }
+    #[verifier::external_body]
+    pub fn name(self, name: String) -> Builder { unimplemented!() }
+    #[verifier::external_body]
+    pub fn spawn<F: FnOnce() -> T, T>(self, f: F) -> (r: core::result::Result<JoinHandle<T>, IoError>)
+        requires f.requires(()),
+        ensures r matches Ok(h) ==> (forall|v: T| h.outcome() == Some(v) ==> f.ensures((), v)),
+    { unimplemented!() }
+}
